@@ -579,9 +579,12 @@ PB(n, s, c) ==
                     good == IF n.mode = "oneof" THEN inside ELSE ~inside
                 IN IF good THEN ROk(r.v, r.s, r.c, <<>>) ELSE RErr("ValidationError", r.s, r.c, <<>>))
       [] n.k \in {"Hex", "HexDump"} ->
-            \* display wrappers: the value is the inner value (as a display subclass); Hex on an integer asks the inner size
+            \* display wrappers: the value is the inner value (as a display subclass); Hex on an integer asks the inner size for the
+            \* zero padding of the display, and does without when the member has no fixed size
             Then(P(n.sub, s, c), LAMBDA r :
-                IF n.k = "Hex" /\ IsIntLike(r.v) THEN Then(ZIn(n.sub, r.s, r.c), LAMBDA z : ROk(r.v, r.s, r.c, <<>>))
+                IF n.k = "Hex" /\ IsIntLike(r.v) THEN
+                    LET z == ZIn(n.sub, r.s, r.c) IN
+                    IF z.ok \/ z.err = "SizeofError" THEN ROk(r.v, r.s, r.c, z.ev) ELSE [z EXCEPT !.v = VNone]
                 ELSE ROk(r.v, r.s, r.c, <<>>))
       [] n.k = "Invalid" -> RErr(OutOfModel, s, c, <<>>)
       [] OTHER -> RErr(OutOfModel, s, c, <<>>)
